@@ -357,3 +357,124 @@ func must(err error) {
 		panic(err)
 	}
 }
+
+// VerifH_C01_two_seeds: two seeds in flight at once (two reactor tokens) through the real stages, one worker per
+// stage: each seed is reported finished exactly once, only when its own tree is done, whatever the other seed is doing
+// and in whichever order the stages hand them on; an asset both pages embed is fetched once when seencheck is on.
+func VerifH_C01_two_seeds() {
+	verifrt.MapOrderAll(false)
+	cfg := &config.Config{WorkersCount: 1, MaxConcurrentAssets: 1, HTTPReadDeadline: 10, UserAgent: "verif", DisableRateLimit: true,
+		ExcludeHosts: []string{"archive.org", "archive-it.org"}}
+	cfg.UseSeencheck = verifrt.Choice("seencheck", 2) == 1
+	config.VerifSet(cfg)
+	domainscrawl.Reset()
+	var nat *c01Native
+	if !verifrt.Symbolic() {
+		_ = stats.Init()
+		nat = c01StartNative(cfg)
+		defer os.RemoveAll(nat.dir)
+		defer nat.ts.Close()
+	}
+	if cfg.UseSeencheck {
+		verifmodel.SeenStore = map[string]string{}
+		if verifrt.Symbolic() {
+			_ = seencheck.Start("/nonexistent")
+		} else {
+			must(seencheck.Start(nat.dir))
+			defer seencheck.Close()
+		}
+	}
+	fetched := func(u string) int {
+		if nat == nil {
+			return verifmodel.SiteFetched[u]
+		}
+		nat.mu.Lock()
+		defer nat.mu.Unlock()
+		return nat.fetched[u]
+	}
+	roots := []string{base + "/", base + "/two"}
+	for _, u := range []string{roots[0], roots[1], base + "/a.png", base + "/b.css", base + "/c.woff", base + "/missing.png"} {
+		ada(u, "http:", "site.example", u)
+	}
+	verifmodel.Site[base+"/a.png"] = &verifmodel.Page{Status: 200}
+	verifmodel.Site[base+"/b.css"] = &verifmodel.Page{Status: 200, Kind: "css", Assets: []string{base + "/c.woff"}}
+	verifmodel.Site[base+"/c.woff"] = &verifmodel.Page{Status: 200}
+	verifmodel.Site[base+"/missing.png"] = &verifmodel.Page{Status: 404}
+	pools := [][]string{{"", base + "/a.png", base + "/missing.png"}, {"", base + "/a.png", base + "/b.css"}}
+	var assets [2]string
+	for i := range roots {
+		p := &verifmodel.Page{Status: 200, Kind: "html"}
+		assets[i] = pools[i][verifrt.Choice("asset-of-page", len(pools[i]))]
+		if assets[i] != "" {
+			p.Assets = []string{assets[i]}
+		}
+		verifmodel.Site[roots[i]] = p
+	}
+
+	reactorOut := make(chan *models.Item, 1)
+	preOut := make(chan *models.Item, 1)
+	archOut := make(chan *models.Item, 1)
+	postOut := make(chan *models.Item, 1)
+	finishCh := make(chan *models.Item, 4)
+	produceCh := make(chan *models.Item, 4)
+	must(reactor.Start(2, reactorOut))
+	must(preprocessor.Start(reactorOut, preOut))
+	must(archiver.Start(preOut, archOut))
+	must(postprocessor.Start(archOut, postOut))
+	must(finisher.Start(postOut, finishCh, produceCh))
+
+	var seeds [2]*models.Item
+	for i := range roots {
+		seeds[i] = models.NewItem("seed-"+string(rune('1'+i)), &models.URL{Raw: roots[i]}, "")
+		must(seeds[i].SetSource(models.ItemSourceQueue))
+		must(reactor.ReceiveInsert(seeds[i]))
+	}
+	verifrt.Quiesce()
+	if !verifrt.Symbolic() {
+		for i := 0; i < 400 && len(finishCh) < 2; i++ {
+			time.Sleep(100 * time.Millisecond)
+		}
+		time.Sleep(500 * time.Millisecond)
+	}
+
+	var finished [2]int
+	for len(finishCh) > 0 {
+		it := <-finishCh
+		verifrt.Assert(it == seeds[0] || it == seeds[1], "C01 only accepted seeds are reported finished")
+		if it == seeds[0] {
+			finished[0]++
+		} else {
+			finished[1]++
+		}
+	}
+	verifrt.Assert(finished[0] == 1 && finished[1] == 1, "C01 each seed in flight is reported finished exactly once")
+	verifrt.Assert(len(reactor.GetStateTable()) == 0, "C01 a finished seed is no longer tracked by the reactor")
+	for i := range seeds {
+		pending := 0
+		seeds[i].Traverse(func(n *models.Item) {
+			st := n.GetStatus()
+			if st != models.ItemCompleted && st != models.ItemSeen && st != models.ItemFailed {
+				pending++
+			}
+		})
+		verifrt.Assert(pending == 0, "C01 the seed is finished only after every URL of its tree is done")
+		verifrt.Assert(fetched(roots[i]) == 1, "C01 every seed URL is fetched")
+		if assets[i] != "" && assets[0] != assets[1] { // (a shared asset is counted below)
+			verifrt.Assert(fetched(assets[i]) == 1, "C01 every in-scope asset of the page is fetched")
+		}
+	}
+	if assets[0] == assets[1] && assets[0] != "" {
+		verifrt.Cover("shared-asset")
+		if cfg.UseSeencheck {
+			verifrt.Assert(fetched(assets[0]) == 1, "C08 an asset two pages share is fetched once when seencheck is on")
+		} else {
+			verifrt.Assert(fetched(assets[0]) == 2, "C01 every in-scope asset of the page is fetched")
+		}
+	}
+	if assets[1] == base+"/b.css" {
+		verifrt.Cover("asset-of-asset")
+		verifrt.Assert(fetched(base+"/c.woff") == 1, "C01 assets of assets are fetched")
+	}
+	verifrt.Assert(len(produceCh) == 0, "C01 outlinks are queued once, and only within the hop limit")
+	verifrt.Cover("finished")
+}
